@@ -107,6 +107,12 @@ def simple_adc(
 
         if not issubclass(d_type.type, np.integer):
             raise TypeError("Expecting a signed/unsigned integer.")
+
+        if np.iinfo(d_type).max < 2**bit_resolution - 1:
+            raise ValueError(
+                f"Data type {d_type.name!r} is too small for an ADC bit resolution of"
+                f" {bit_resolution} bits."
+            )
     else:
         d_type = get_dtype(bit_resolution)
 
